@@ -410,8 +410,9 @@ impl Source for Driver {
             return Some(if self.rng.chance(1, 2) && (t.role != "server" || v == "v50") { send(p) } else if t.client && v == "v311" { send(P::of("disconnect", &v)) } else { recv(p) });
         }
         if c < 22 && (self.profile == "crash" || self.profile == "qos" || self.profile == "inbound")
-            && t.held.is_empty() && !t.awaiting.values().any(|k| k == "pubrel")
+            && t.held.is_empty() && !t.awaiting.values().any(|k| k == "pubrel") && t.persistent
         {
+            // C16 speaks of reconnecting "with the session present": crash points are taken in persistent sessions
             return Some(Call::of("crash"));
         }
         if c < 23 && (self.profile == "reuse" || self.profile == "hostile") {
